@@ -133,7 +133,10 @@ func (c *Content) WithFileInfoDefaults(umask fs.FileMode, mtime time.Time) *Cont
 	if cc.FileInfo.Group == "" {
 		cc.FileInfo.Group = "root"
 	}
-	if (cc.Type == TypeDir || cc.Type == TypeImplicitDir) && cc.FileInfo.Mode == 0 {
+	isDir := cc.Type == TypeDir || cc.Type == TypeImplicitDir
+	// a directory without a mode gets 0755, unless a directory of the build
+	// environment is given as src: then mode and mtime are copied from it below
+	if isDir && cc.FileInfo.Mode == 0 && cc.Source == "" {
 		cc.FileInfo.Mode = 0o755
 	}
 	if cc.FileInfo.MTime.IsZero() {
@@ -157,8 +160,13 @@ func (c *Content) WithFileInfoDefaults(umask fs.FileMode, mtime time.Time) *Cont
 			if cc.FileInfo.Mode == 0 {
 				cc.FileInfo.Mode = unixMode(info.Mode()) &^ umask
 			}
-			cc.FileInfo.Size = info.Size()
+			if !isDir {
+				cc.FileInfo.Size = info.Size()
+			}
 		}
+	}
+	if isDir && cc.FileInfo.Mode == 0 {
+		cc.FileInfo.Mode = 0o755
 	}
 
 	if cc.FileInfo.MTime.IsZero() {
